@@ -119,7 +119,8 @@ class Finding:
 
     def __init__(self, key, detail, case, check=None):
         self.key = key
-        self.detail = detail
+        # (lines of tens of thousands of characters are abbreviated in the report, never in the case)
+        self.detail = detail if len(detail) <= 4000 else detail[:1800] + " ...[%d characters]... " % (len(detail) - 3600) + detail[-1800:]
         self.case = case
         self.check = check
 
